@@ -1,5 +1,6 @@
 """C01 — decimal string->float correctly rounded: tables, limits, pipeline shape (DESIGN §4)."""
 from rules import tbl_parse_float as T
+from rules import pipeline as P
 from rules.core import guarded
 
 INFO = {
@@ -20,3 +21,8 @@ def run(col, configs, tier):
         guarded(col, T.rule_split_radix, facts, dec)
         guarded(col, T.rule_bellerophon, facts, dec)
         guarded(col, T.rule_invalid_fp_pairing, facts)
+        guarded(col, P.rule_slow_fallback, facts)
+        guarded(col, P.rule_lemire_truncation, facts)
+        if facts.config.startswith('compact'):
+            guarded(col, P.rule_error_units, facts)
+        guarded(col, P.rule_same_base, facts)
